@@ -757,6 +757,20 @@ def rule_OR3(ctx, tier):
             rr.ok("config verified before DB is opened")
         else:
             rr.fail("db-before-config:%s" % ",".join(sorted(shortfn(x) for x in missing)), "the database is opened before the configuration was %s" % sorted(missing), where=m.line_of(bb))
+    # ... and everything that is derived from the network name (the per-network data directory, hence the database with the tower key,
+    # users, appointments and trackers) is derived after Config::verify normalised it: `mainnet`/`main` and `testnet`/`test` are the same
+    # network and must land in the same directory
+    nn = 0
+    for bb, t in m.calls():
+        if (call_target(t) or "").split("::")[-1] in ("join", "push", "new", "from", "format") and any("f:btc_network" in og.show(arg_origin(ctx, m, bb, i)) for i in range(len(t["args"]))) \
+                and any(x in (call_target(t) or "") for x in ("Path", "PathBuf")):
+            nn += 1
+            if "teos::config::Config::verify" in before.get(bb, set()):
+                rr.ok("network directory derived from the verified (normalised) network name")
+            else:
+                rr.fail("db-before-config:network-dir", "main builds a path from `conf.btc_network` on a path where Config::verify has not run: verify rewrites `mainnet`/`testnet` to bitcoind's `main`/`test`, so the two accepted spellings of one network select two different databases — a restart under the other spelling starts a fresh tower (new key, nothing loaded)", where=m.line_of(bb))
+    if nn == 0:
+        rr.fail("db-before-config:no-network-dir", "cannot find where main derives the per-network directory from conf.btc_network", where=m.span)
     # who may persist the last known block
     callers = {c for c, bb in P.callers().get(DBM + "store_last_known_block", [])}
     poll_family = set(P.family(POLL))
